@@ -116,6 +116,8 @@ def summarise(ex, n: ast.For, seq: Lst, p):
     for t in temps:
         base_env[t] = Poison(t)
 
+    body_runs = []
+
     def body_at(idx):
         """Execute the body for iteration `idx` (z3 Int term) with empty accumulators (deltas)."""
         env = dict(base_env)
@@ -125,9 +127,11 @@ def summarise(ex, n: ast.For, seq: Lst, p):
             arr = p.env[a]
             env[a] = NDArr(arr.n, arr._at, arr.dtype, log=[])   # records this iteration's stores
         start = symex.Path(p.cond + [idx >= 0, idx < N], env, Lst(items=[]) if is_gen else None, p.heap)
-        sub = ex.child()
+        sub = ex.enter_iteration(ex.child(), p)
         sub.index_ctx = ex.index_ctx + [idx]
         sub.loop_tag = ex.loop_tag + (loop_id,)
+        sub.replay = ex.replay or bool(body_runs)   # the first execution is the real one; later ones re-read it
+        body_runs.append(1)
         falls, exits = run_iteration(sub, n, seq.at(idx), start)
         return falls, exits, sub
 
@@ -332,11 +336,24 @@ def filtered_list(ex, elt, g, seq: Lst, p):
     """[elt for x in seq if cond] over a symbolic list (comprehension form of the filter summary)."""
     cache = ex.trace.setdefault("_comp_cache", {})
     key = comp_key(ex, elt, g, seq, p)
-    if key in cache:
-        return cache[key][0]
+    hit = cache_lookup(cache, key, p)
+    if hit is not None:
+        return hit
     res = _filtered_list(ex, elt, g, seq, p)
-    cache[key] = (res, seq)  # keep seq alive so that id() stays unique
+    cache.setdefault(key, []).append((res, seq, {c.get_id() for c in p.cond}, list(p.cond)))  # keep seq alive so that id() stays unique
     return res
+
+
+def cache_lookup(cache, key, p):
+    """a cached comprehension value may be reused only on a path that extends the path it was built on
+    (its element expressions captured that path's conditions)"""
+    cur = None
+    for ent in cache.get(key, ()):
+        if cur is None:
+            cur = {c.get_id() for c in p.cond}
+        if ent[2] <= cur:
+            return ent[0]
+    return None
 
 
 def _filtered_list(ex, elt, g, seq: Lst, p):
@@ -348,8 +365,9 @@ def _filtered_list(ex, elt, g, seq: Lst, p):
     N = seq.n
 
     def at_index(idx):
-        sub = ex.child()
+        sub = ex.enter_iteration(ex.child(), p)
         sub.implicit_exc = False
+        sub.replay = True
         sub.index_ctx = ex.index_ctx + [idx]
         res = []
         for q in sub.assign(g.target, seq.at(idx), symex.Path(p.cond, p.env, None, p.heap), elt):
@@ -378,6 +396,28 @@ def _filtered_list(ex, elt, g, seq: Lst, p):
                 val = v if val is None else ite(z3.And(*e) if e else z3.BoolVal(True), v, val)
         return val
 
+    if ex.implicit_exc and not ex.replay:
+        ci = fresh_int("cfi")
+        sub0 = ex.enter_iteration(ex.child(), p)
+        sub0.index_ctx = ex.index_ctx + [ci]
+        for q0 in sub0.assign(g.target, seq.at(ci), p.fork(ci >= 0, ci < N), elt):
+            conds0 = [(q0, [])]
+            for c0 in g.ifs:
+                conds0 = [(q3, ts + [truth(v0)]) for (q2, ts) in conds0 for (q3, v0) in sub0.ev(c0, q2)]
+            for q3, ts in conds0:
+                sub0.ev(elt, q3.fork(*ts))
+        ex.outcomes += sub0.outcomes
+    # a filter that provably keeps every element is the plain map (solver-checked; avoids an inductive argument
+    # about the monotone source-index function)
+    jchk = fresh_int("keepall")
+    old_to = ex.feas_timeout_ms
+    ex.feas_timeout_ms = 3000
+    try:
+        keeps_all = not ex.feasible(p.cond + [jchk >= 0, jchk < N, z3.Not(keep_at(jchk))])
+    finally:
+        ex.feas_timeout_ms = old_to
+    if keeps_all:
+        return Lst(n=N, at=item_at)
     k, jj = fresh_int("fk"), fresh_int("fj")
     ex.bg_local(p, guard=N >= 0, facts=[
         m >= 0, m <= N,
